@@ -1,6 +1,7 @@
 """C13 -- constructed isometries, tangent vectors, regular polygons
 (T1, U1, RC). Narrow: can execute + row convention."""
 from ..rules import dtype_rules as D
+from ..rules import cache_rules as CA
 from ..rules import hyp_rules as H
 from ..rules import degree_rules as DG
 from ..rules import shape_rules as SH
@@ -28,6 +29,7 @@ def run(ctx):
     ctx.do(H.rule_odd1)
     ctx.do(DG.rule_hd1)
     ctx.do(DG.rule_hd1_attr)
+    ctx.do(CA.rule_c2, "ProjectiveObject", scope=ctx.scope(ENTRIES))
     ctx.do(SH.rule_sh5, only={"TangentVector.normalized", "TangentVector.angle", "TangentVector.point_along", "TangentVector.origin_to", "Point.origin_to", "Point.unit_tangent_towards"})
     ctx.do(u1, ENTRIES, min_functions=15)
     ctx.r.assume("every numerical clause (origin -> p, distances along "
